@@ -264,11 +264,21 @@ class G:
 
     def boolean(self, d):
         r = self.rng
-        k = r.choice(["cmp", "cmp", "cmp", "chain", "not", "const"]) if d > 0 else r.choice(["cmp", "cmp", "const"])
+        k = (r.choice(["cmp", "cmp", "cmp", "chain", "not", "const", "window", "notwindow", "notwindow"]) if d > 0
+             else r.choice(["cmp", "cmp", "const", "window", "notwindow"]))
         if k == "const":
             return ["bool", r.random() < 0.5]
         if k == "not":
             return ["unary", "Not", self.boolean(d - 1)]
+        if k in ("window", "notwindow"):
+            # lo < x <= hi (possibly negated): the bounds are values the states / parameters actually take, so
+            # inputs lie inside, outside and on the edge of the window
+            lo, hi = sorted(r.sample(["0", "1", "2", "3", "4", "1/2", "3/2"], 2), key=Fraction)
+            x = ["name", r.choice(self.names)] if self.names else self.const()
+            w = ["compare", ["num", lo], [[r.choice(["Lt", "LtE"]), x], [r.choice(["Lt", "LtE"]), ["num", hi]]]]
+            if r.random() < 0.3:
+                w = ["compare", ["num", hi], [[r.choice(["Gt", "GtE"]), x], [r.choice(["Gt", "GtE", "NotEq"]), ["num", lo]]]]
+            return ["unary", "Not", w] if k == "notwindow" else w
         ops = ["Lt", "LtE", "Gt", "GtE", "Eq", "NotEq"]
         if k == "cmp":
             return ["compare", self.num(d - 1), [[r.choice(ops), self.num(d - 1)]]]
@@ -394,7 +404,7 @@ def _has_float(body) -> bool:
 
 
 def gen_model(rng, *, stratum: str):
-    """stratum: exact | float | names | unsupported:<kind> | refclash | boolnum"""
+    """stratum: exact | float | names | unsupported:<kind> | refclash | boolnum | gennames | samepath"""
     floaty = stratum == "float"
     nv, npar = rng.choice([1, 2, 2, 3]), rng.choice([1, 2, 3])
     nd, nr = rng.choice([0, 1, 2]), rng.choice([1, 2, 3])
@@ -462,6 +472,26 @@ def gen_model(rng, *, stratum: str):
                 cf["params"] = ["p0"]
             stoich.append([clash_species, ["fn", cf]])
         model["rxns"].append({"name": r, "fn": f, "stoich": stoich})
+    if stratum == "gennames":
+        # components called like the helper functions the importer generates: <reaction>_stoich_<species> for a
+        # reaction declared before or after it, init_<name> for a name that has an initial assignment
+        r0 = model["rxns"][0]
+        twin = {"name": f"{r0['name']}_stoich_{r0['stoich'][0][0]}",
+                "fn": mk_fn(rng, "rate_twin", rng.sample(avail, min(len(avail), 2)), floaty=False)[0],
+                "stoich": [[rng.choice(vs), ["num", rng.choice(COEFS)]]]}
+        model["rxns"].insert(rng.choice([0, 1, len(model["rxns"])]), twin)
+        ia_names = [n for n, i in model["params"] + model["vars"] if i[0] == "ia"]
+        if not ia_names and plain_ps:
+            f, _ = mk_fn(rng, "ia_x", rng.sample(plain_ps, 1), depth=1)
+            model["params"].append(["kia", ["ia", f]])
+            ia_names = ["kia"]
+        for n in ia_names[:1]:
+            f, _ = mk_fn(rng, "gen_init", rng.sample(avail, min(len(avail), 2)), floaty=False)
+            if rng.random() < 0.5:
+                model["rxns"].insert(rng.choice([0, len(model["rxns"])]),
+                                     {"name": f"init_{n}", "fn": f, "stoich": [[rng.choice(vs), ["num", rng.choice(COEFS)]]]})
+            else:
+                model["derived"].append([f"init_{n}", f])
     must_raise = False
     kind = stratum
     if stratum.startswith("unsupported:"):
@@ -499,8 +529,11 @@ def gen_model(rng, *, stratum: str):
     states = []
     for _ in range(3):
         states.append([[v, rng.choice(["0", "1", "2", "3", "4", "1/2", "3/2", "6"])] for v in vs])
-    return {"kind": kind, "model": model, "states": states, "must_raise": must_raise, "finding": finding,
+    case = {"kind": kind, "model": model, "states": states, "must_raise": must_raise, "finding": finding,
             "floaty": floaty}
+    if stratum == "samepath":
+        case["prev"] = gen_model(rng, stratum="exact")["model"]
+    return case
 
 
 def f_expr_using_all(rng, g, params):
@@ -747,6 +780,18 @@ def real_worker(job):
     out: dict = {}
     gen_dir = default_tmp_dir(None, remove_old_cache=False)
     try:
+        if case.get("prev") is not None:
+            # the same path has been written and read before, in this process, with another model
+            ppath = SCRATCH / f"{modname}_prev.py"
+            ppath.write_text(case["prev_source"])
+            pspec = importlib.util.spec_from_file_location(modname + "_prev", ppath)
+            pmod = importlib.util.module_from_spec(pspec)
+            sys.modules[modname + "_prev"] = pmod
+            pspec.loader.exec_module(pmod)
+            sbml.write(build_model(case["prev"], pmod), xml)
+            sbml.read(xml)
+            ppath.unlink()
+            sys.modules.pop(modname + "_prev", None)
         modpath.write_text(case["source"])
         spec = importlib.util.spec_from_file_location(modname, modpath)
         mod = importlib.util.module_from_spec(spec)
@@ -874,7 +919,7 @@ def judge_case(ctx, case, R, M):
         "dynamic": [n for n, _ in desc["derived"]] + [r["name"] for r in desc["rxns"]],
     }
     kinds["all"] = kinds["static"] + kinds["dynamic"]
-    small = {k: case[k] for k in ("kind", "model", "states", "must_raise", "finding", "floaty", "source")}
+    small = {k: case.get(k) for k in ("kind", "model", "states", "must_raise", "finding", "floaty", "source", "prev")}
     r_exp = "error" if "err" in R["export"] else "ok"
     m_exp = None if M is None else ("error" if "err" in M["export"] else "ok")
     if M is not None and bool(M["unsupported"]) != bool(case["must_raise"]):
@@ -1060,7 +1105,7 @@ def shrink(ctx, viol, budget: int = 40):
                 break
             spent += 1
             try:
-                c2 = prepare({k: cand[k] for k in ("kind", "model", "states", "must_raise", "finding", "floaty")})
+                c2 = prepare({k: cand.get(k) for k in ("kind", "model", "states", "must_raise", "finding", "floaty", "prev")})
                 (R, M), = evaluate(ctx, [c2])
                 probe = Ctx(ctx.prop, ctx.tier, ctx.seed)
                 probe.known, probe.fixed = ctx.known, ctx.fixed
@@ -1079,6 +1124,8 @@ def shrink(ctx, viol, budget: int = 40):
 
 
 def prepare(case):
+    if case.get("prev") is not None:
+        case["prev_source"] = module_source(case["prev"])
     case["source"] = module_source(case["model"])
     case["wire"] = model_wire(case["model"], case["source"])
     return case
@@ -1087,7 +1134,7 @@ def prepare(case):
 def evaluate(ctx, cases):
     reqs = [{"op": "c08", "model": c["wire"], "states": c["states"]} for c in cases]
     Ms = driver.call_batch(reqs) if ctx.driver_ok else [None] * len(cases)
-    jobs = [({k: c[k] for k in ("kind", "model", "states", "must_raise", "source")},
+    jobs = [({k: c.get(k) for k in ("kind", "model", "states", "must_raise", "source", "prev", "prev_source")},
              dict(m["names"]) if m is not None else {}) for c, m in zip(cases, Ms)]
     Rs = pool().map(real_worker, jobs, chunksize=4)
     return list(zip(Rs, Ms))
@@ -1119,7 +1166,8 @@ def setup(ctx):
 
 def strata(ctx):
     n = ctx.n(1, 40)
-    plan = [("exact", 140 * n), ("float", 90 * n), ("names", 33 * n), ("refclash", 8 * n), ("boolnum", 9 * n)]
+    plan = [("exact", 140 * n), ("float", 90 * n), ("names", 33 * n), ("refclash", 8 * n), ("boolnum", 9 * n),
+            ("gennames", 24 * n), ("samepath", 16 * n)]
     plan += [(f"unsupported:{k}", 3 * n) for k, _ in UNSUPPORTED]
     return plan
 
@@ -1156,7 +1204,7 @@ def run(ctx):
 
 def replay(ctx, rp):
     case = rp["case"]
-    case = prepare({k: case[k] for k in ("kind", "model", "states", "must_raise", "finding", "floaty")})
+    case = prepare({k: case.get(k) for k in ("kind", "model", "states", "must_raise", "finding", "floaty", "prev")})
     (R, M), = evaluate(ctx, [case])
     print(case["source"])
     print("R =", json.dumps(R, indent=1)[:4000])
